@@ -313,6 +313,9 @@ func verifRoundTrip(src []byte, lang LangVariant, mode int) {
 		if out2.String() != outs && verifKnown("C02-closing-paren-on-later-line", verifLateClose(f2)) {
 			return
 		}
+		if out2.String() != outs && verifKnown("C02-spaced-closing-parens-across-lines", verifSpacedClose(f2, outs)) {
+			return
+		}
 		verifAssert(out2.String() == outs, "formatting is not idempotent")
 	}
 	if mode&1 != 0 {
@@ -399,4 +402,31 @@ func verifHdocCont(f *File) bool {
 		return true
 	})
 	return hdocCont
+}
+
+// verifSpacedClose: the printed text closes nested parentheses as ") )" although
+// they were opened on an earlier line: the space mirrors "( (" only for
+// one-line layouts, and the printer decided from source lines.
+func verifSpacedClose(f *File, outs string) bool {
+	found := false
+	check := func(open, close Pos) {
+		off := int(close.Offset())
+		if open.Line() != close.Line() && off >= 2 && off < len(outs) && outs[off-1] == ' ' && outs[off-2] == ')' {
+			found = true
+		}
+		// the converse: "))" on the line of the opening parentheses
+		if open.Line() == close.Line() && off >= 1 && off < len(outs) && outs[off-1] == ')' {
+			found = true
+		}
+	}
+	Walk(f, func(n Node) bool {
+		switch n := n.(type) {
+		case *Subshell:
+			check(n.Lparen, n.Rparen)
+		case *CmdSubst:
+			check(n.Left, n.Right)
+		}
+		return true
+	})
+	return found
 }
